@@ -160,47 +160,71 @@ def run(ctx):
         and isinstance(calls[0].ast.targets[0], ast.Subscript) else False
     ctx.instance(R3, "fix_exec_report_msg[ExecID(17) := _next_exec_id() unconditionally, once]", bool(once),
                  "the report's ExecID is not drawn from _next_exec_id exactly once on every path", loc(er))
-    # OrderID
-    oid = tag_locals.get("37", (None, None))[0]
-    defs = [n for n in g.nodes if n.kind == "stmt" and isinstance(n.ast, ast.Assign) and oid and oid in [unparse(t) for t in n.ast.targets]] if oid else []
+    # OrderID: wherever it is produced (inline or in a helper method), it is the order's own id, else the remembered one, else a new remembered one
+    prod = None
+    for q, f in sorted(repo.functions.items()):
+        if q.startswith(T + ".") and any(isinstance(c, ast.Call) and unparse(c.func) == "self._next_order_id" for c in walk_no_nested(f)) and not q.endswith("._next_order_id"):
+            prod = (q, f)
+    if prod is None:
+        raise AnalysisError("no producer of OrderIDs found in FIXTester")
+    pq, pf = prod
+    pgr = CFG(pf)
+    ordn = next((a.arg for a in pf.args.args if a.arg not in ("self",) and any(unparse(x) == f"{a.arg}.order_id" for x in ast.walk(pf))), None)
     own = fresh = remembered = recorded = False
-    for n in defs:
-        fs = _pf(g, n.id)
-        v = unparse(n.ast.value)
-        if v == "order.order_id" and (("order.order_id is not None", True) in fs or ("order.order_id is None", False) in fs):
-            own = True
-        if v == "self._next_order_id()" and (("order.order_id is None", True) in fs or ("order.order_id is not None", False) in fs):
-            fresh = True
-            # the new id is remembered for the order
-            recorded = any(isinstance(x, ast.Assign) and any("order" in unparse(t) and ("_order_ids" in unparse(t) or unparse(t) == "order.order_id") for t in x.targets)
-                           and (oid in unparse(x.value) or x is n.ast) for x in [m.ast for m in g.nodes if m.kind == "stmt" and g.reaches(n.id, m.id, exc=False) or m is n]
-                           if isinstance(x, ast.Assign))
-        if "_order_ids[" in v or "_order_ids.get(" in v:
-            remembered = True
-    ctx.instance(R3, "fix_exec_report_msg[OrderID(37): own id, else remembered, else new and remembered]", bool(oid) and own and fresh and remembered and recorded,
-                 "OrderID is not stable per order: a new id is drawn while the order has not yet processed an earlier report and nothing remembers the first one "
-                 f"(own={own}, new={fresh}, looked up={remembered}, recorded={recorded})", loc(er))
-    # the memo key is invariant over the order's life (the current ClOrdID changes with every request, its root does not)
     keys = set()
-    for x in walk_no_nested(er):
+    for n in pgr.nodes:
+        if n.kind != "stmt":
+            continue
+        fs = _pf(pgr, n.id)
+        txt = unparse(n.ast)
+        val = getattr(n.ast, "value", None)
+        vtxt = unparse(val) if val is not None else ""
+        if ordn and vtxt == f"{ordn}.order_id" and ((f"{ordn}.order_id is not None", True) in fs or (f"{ordn}.order_id is None", False) in fs):
+            own = True
+        if "self._next_order_id()" in txt:
+            in_new = any(tv and re.fullmatch(r".+ not in self\._order_ids", a) for a, tv in fs)
+            own_none = (f"{ordn}.order_id is None", True) in fs or (f"{ordn}.order_id is not None", False) in fs or any(
+                isinstance(r.ast, ast.Return) and unparse(r.ast.value) == f"{ordn}.order_id" and pgr.reaches(pgr.entry, n.id, avoid={r.id}, exc=False)
+                for r in pgr.nodes if r.kind == "stmt" and isinstance(r.ast, ast.Return))
+            fresh = in_new and own_none
+            # recorded: the drawn id goes into the memo (directly, or through a local that is stored afterwards)
+            if isinstance(n.ast, ast.Assign) and any("self._order_ids[" in unparse(t) for t in n.ast.targets):
+                recorded = True
+            elif isinstance(n.ast, ast.Assign) and isinstance(n.ast.targets[0], ast.Name):
+                loc_ = n.ast.targets[0].id
+                recorded = any(m.kind == "stmt" and isinstance(m.ast, ast.Assign) and any("self._order_ids[" in unparse(t) for t in m.ast.targets) and unparse(m.ast.value) == loc_
+                               and pgr.reaches(n.id, m.id, exc=False) for m in pgr.nodes)
+        if "self._order_ids[" in vtxt or "self._order_ids.get(" in vtxt:
+            remembered = True
+    for x in ast.walk(pf):
         if isinstance(x, ast.Subscript) and unparse(x.value) == "self._order_ids":
             keys.add(unparse(x.slice))
         if isinstance(x, ast.Compare) and len(x.ops) == 1 and isinstance(x.ops[0], (ast.In, ast.NotIn)) and unparse(x.comparators[0]) == "self._order_ids":
             keys.add(unparse(x.left))
+    ctx.instance(R3, f"{pq.split('.')[-1]}[OrderID: own id, else remembered, else new and remembered]", own and fresh and remembered and recorded,
+                 "OrderID is not stable per order: a new id is drawn while the order has not yet processed an earlier report and nothing remembers the first one "
+                 f"(own={own}, new={fresh}, looked up={remembered}, recorded={recorded})", loc(pf))
     for k in sorted(keys):
-        m = re.fullmatch(r"order\.(\w+)", k)
+        m = re.fullmatch(rf"{ordn}\.(\w+)", k) if ordn else None
         stable = False
         if m:
             attr = m.group(1)
             writers = [q for q in res.writers_of(attr) if q.startswith("FIXNewOrderSingle.") and not q.endswith(".__init__")]
             prop = repo.functions.get(f"FIXNewOrderSingle.{attr}")
-            if prop is not None:
-                stable = "self.clord_root(" in unparse(prop)  # derived through the root extraction: C17.fresh-ids keeps every id of an order on one root
-            else:
-                stable = not writers
-        ctx.instance(R3, f"fix_exec_report_msg[OrderID memo key {k}]", stable and len(keys) == 1,
+            stable = ("self.clord_root(" in unparse(prop)) if prop is not None else not writers
+        ctx.instance(R3, f"{pq.split('.')[-1]}[OrderID memo key {k}]", stable and len(keys) == 1,
                      f"the OrderID remembered for an order is keyed by `{k}`, which changes during the order's life (every request draws a new ClOrdID): the same order gets a "
-                     "second OrderID after its ClOrdID moved on", loc(er))
+                     "second OrderID after its ClOrdID moved on", loc(pf))
+    # every fabricated message that carries an OrderID takes it from that producer (or is the producer)
+    for q, f, ret in factories:
+        for n in walk_no_nested(f):
+            if isinstance(n, ast.Assign) and isinstance(n.targets[0], ast.Subscript) and unparse(n.targets[0].value) == ret and fo.tag(n.targets[0].slice) == "37":
+                v = unparse(n.value)
+                okv = pq == q or re.fullmatch(rf"self\.{pq.split('.')[-1]}\(\w+\)( if \w+ is not None else 0)?", v) is not None
+                if pq == q:
+                    okv = isinstance(n.value, ast.Name)
+                ctx.instance(R3, f"{q.split('.')[-1]}[OrderID(37) from the per-order record]", okv,
+                             f"{q} writes OrderID(37) from `{short(n.value)}`: the helper's messages for one order do not agree on its OrderID", loc(n))
     no = repo.func(f"{T}._next_order_id")
     ctx.instance(R3, "_next_order_id[+1 then return]", [unparse(s) for s in no.body] == ["self._order_id += 1", "return self._order_id"], "the OrderID counter is not a plain +1", loc(no))
 
